@@ -31,6 +31,15 @@ PROPS = {
         "note": "Trusted: Lean kernel (decide +kernel, axioms propext only); hand-written action summaries (Model/AbsC06.lean) tied by trace inclusion on generated scenarios only; ValidateTx deterministic; simulated Lightning back-end (union of LND-like refusal and CLN-like idempotent repay); bbolt atomic.",
         "design_ref": "DESIGN.md §4 C06",
     },
+    "C11": {
+        "module": "PsVerif.Props.C11",
+        "slices": [("admit", 800, 40000)],
+        "monitor": (600, 30000),
+        "technique": "Lean 4 theorems over an ordered refusal-list model of the whole admission path (service pre-checks, message validation incl. the scid/hex/network formats, lockSwap, CheckRequestWrapperAction, balance check), uint64 wrap explicit; differential correspondence against the real SwapService with the real premium.Setting; Go monitor on unwrapped amounts",
+        "text": "Proved: an agreement is produced only if swaps are enabled, the request is well-formed, the chain is enabled and asset/network match, version = 7 (generated), amount*1000 >= minimum and fits the channel (spendable+probe for swap-in, receivable for swap-out), the peer is allowlisted or all are accepted, not suspicious, the channel is free, the premium is the node's own rate and <= the limit, and (swap-out) balance >= amount+fee; otherwise exactly the first failing check's cancel. The amount conditions are modulo 2^64 as in the code; equal to the real amount below 2^64/1000 (proved); two latent wrap findings outside.",
+        "note": "Trusted: Lean kernel; the order and content of the checks are tied by the admit slice (valid base case with up to three perturbed dimensions); cancel reasons are compared by class; 'peer not allowed' and 'peer suspicious' send the same text and are one class.",
+        "design_ref": "DESIGN.md §4 C11",
+    },
     "C21": {
         "module": "PsVerif.Props.C21",
         "slices": [("wire", 3000, 200000)],
